@@ -671,7 +671,8 @@ fn pair_matches(md: &Model, cur: usize, b: &Board, mv: Move) -> bool {
     ok
 }
 
-pub fn walker_steps<S: Src, const START: u8, const PRE: u8, const KG: u8, const NOPS: usize>(s: &mut S) {
+/// CONC leading `next()` calls are concrete (the walker state after them is concrete), then NOPS symbolic operations
+pub fn walker_steps<S: Src, const START: u8, const PRE: u8, const KG: u8, const CONC: usize, const NOPS: usize>(s: &mut S) {
     let (mut ch, mut md) = build(START, PRE);
     if KG != 0 {
         let side = pos_of(md.cur().raw()).side;
@@ -689,8 +690,9 @@ pub fn walker_steps<S: Src, const START: u8, const PRE: u8, const KG: u8, const 
         let mut cur = 0usize;
         vassert!("walker starts at the beginning and knows the length", w.pos() == 0 && w.len() == n && w.is_empty() == (n == 0));
         let mut k = 0;
-        while k < NOPS {
-            match s.below(4) {
+        while k < CONC + NOPS {
+            let op = if k < CONC { 0 } else { s.below(4) };
+            match op {
                 0 => match w.next() {
                     Some((b, mv)) => {
                         vassert!("next is Some only before the end", cur < n);
